@@ -86,7 +86,7 @@ def WFBatch (b : Batch) : Prop :=
   ∃ body : List Req, (∀ r ∈ body, Plain r = true) ∧
     ((b = body) ∨ (b = [Req.multi] ++ body ++ [Req.exec]))
 
-theorem plain_cmds (q : List Item) : ∀ r ∈ q.map (fun i => Req.cmd i.cmd i.args), Plain r = true := by
+theorem plain_cmds (q : List Item) : ∀ r ∈ q.map (fun i => Req.cmd i.cmd i.args i.offset), Plain r = true := by
   intro r hr
   obtain ⟨i, _, rfl⟩ := List.mem_map.mp hr
   rfl
@@ -101,7 +101,7 @@ theorem plain_cpPart (c : SCfg) (s : SState) (u : Bool) (off : Int) :
 
 /-- the plain body of a flush -/
 def sendBody (c : SCfg) (s : SState) (u : Bool) (off : Int) : List Req :=
-  s.queue.map (fun i => Req.cmd i.cmd i.args) ++ cpPart c s u off
+  s.queue.map (fun i => Req.cmd i.cmd i.args i.offset) ++ cpPart c s u off
 
 theorem plain_sendBody (c : SCfg) (s : SState) (u : Bool) (off : Int) :
     ∀ r ∈ sendBody c s u off, Plain r = true := by
